@@ -879,8 +879,9 @@ theorem C13_items_transparent_com (cfg : Cfg) : (ts : List R) → ShapeCs ts →
 end
 
 /-- with include_comments the whole transform is: canonize, comments pass, main pass -/
-theorem transform_com (cfg : Cfg) (hc : cfg.com = true) (t : R) : transform cfg t = item2 cfg (canonize t) := by
-  simp only [transform, hc, if_true, bind, Except.bind, item2]
+theorem transform_com (cfg : Cfg) (hc : cfg.com = true) (t : R) (hk : canonizable t = true) :
+    transform cfg t = item2 cfg (canonize t) := by
+  simp only [transform, hk, hc, if_true, bind, Except.bind, item2]
   cases comT cfg (canonize t) <;> rfl
 
 /-- **C13_comments_transparent** — the whole two-pass pipeline: for every tree whose root is `start` over
